@@ -91,8 +91,11 @@ func executeCompaction(db *DB) (compactionMetadata *proto.CompactionMetadata, er
 		return nil, err
 	}
 
+	writerClosed := false
 	defer func() {
-		err = errors.Join(err, writer.Close())
+		if !writerClosed {
+			err = errors.Join(err, writer.Close())
+		}
 	}()
 
 	var readers []sstables.SSTableReaderI
@@ -141,6 +144,14 @@ func executeCompaction(db *DB) (compactionMetadata *proto.CompactionMetadata, er
 		WritePath:       filepath.Base(writeFolder),
 		ReplacementPath: paths[0],
 		SstablePaths:    paths,
+	}
+
+	// the table must be complete on disk before it is flagged as successful: a recovery trusts the flag, deletes the
+	// compacted tables and puts this one in their place
+	writerClosed = true
+	err = writer.Close()
+	if err != nil {
+		return nil, err
 	}
 
 	// at this point the compaction is finished, we save the metadata that this was successful for potential recoveries
